@@ -72,7 +72,13 @@ def gen_case(rng, lattice):
         ram = peak
     if ram <= 0:
         ram = unit
-    return {"tps": tps, "q": q, "g": g, "cpus": cpus, "ops": ops, "ram": F(ram), "lattice": lattice}
+    # dependencies: a chain, or (a third of the cases) any DAG in which the assigned order - the creation order - is a valid order without being
+    # sorted by depth, e.g. [a, b (child of a), c (a second root)]: a container runs its operators in the order it was given
+    if nops >= 2 and rng.random() < 0.35:
+        parents = [sorted(rng.sample(range(k), rng.randint(0, min(2, k)))) for k in range(nops)]
+    else:
+        parents = [[k - 1] if k else [] for k in range(nops)]
+    return {"tps": tps, "q": q, "g": g, "cpus": cpus, "ops": ops, "ram": F(ram), "lattice": lattice, "parents": parents}
 
 
 def run_impl(case):
@@ -84,8 +90,9 @@ def run_impl(case):
     ex = Executor(1, 256, 4096, case["tps"], multi_operator_containers=True)
     p = Pipeline("p", Priority.BATCH_PIPELINE)
     ops = []
-    for segs in case["ops"]:
-        op = p.new_operator([ops[-1]] if ops else None)
+    par = case.get("parents") or [[k - 1] if k else [] for k in range(len(case["ops"]))]
+    for k, segs in enumerate(case["ops"]):
+        op = p.new_operator([ops[i] for i in par[k]] if par[k] else None)
         for s in segs:
             op.add_segment(Segment(baseline_cpu_seconds=num(s["base"]), cpu_scaling=s["law"],
                                    memory_gb=None if s["fixed"] is None else num(s["fixed"]), storage_read_gb=num(s["read"])))
@@ -117,8 +124,9 @@ def run_impl(case):
 def model_lines(case):
     q = case["q"]
     lines = [f"cfg {case['tps']} {q} {case['g']} 1 0 1 256 {4096 * q}", "pipe 3"]
+    par = case.get("parents") or [[k - 1] if k else [] for k in range(len(case["ops"]))]
     for oid, segs in enumerate(case["ops"]):
-        lines.append(f"op 0 {oid - 1 if oid else '-'}")
+        lines.append(f"op 0 {','.join(map(str, par[oid])) if par[oid] else '-'}")
         for s in segs:
             b = F(s["base"])
             fx = "-" if s["fixed"] is None else str(int(s["fixed"] * q))
@@ -166,7 +174,7 @@ def compare(case, impl, spec):
 def case_json(case):
     return {"tps": case["tps"], "cpus": case["cpus"], "ram_gb": fstr(case["ram"]), "lattice": case["lattice"],
             "ops": [[{"base": fstr(s["base"]), "law": s["law"], "fixed": None if s["fixed"] is None else fstr(s["fixed"]),
-                      "read": fstr(s["read"])} for s in o] for o in case["ops"]]}
+                      "read": fstr(s["read"])} for s in o] for o in case["ops"]], "parents": case.get("parents")}
 
 
 def case_from_json(j):
@@ -177,7 +185,7 @@ def case_from_json(j):
         q, g = 1000 * tps, 20000
     return {"tps": tps, "q": q, "g": g, "cpus": j["cpus"], "ram": F(j["ram_gb"]), "lattice": j["lattice"],
             "ops": [[{"base": F(s["base"]), "law": s["law"], "fixed": None if s["fixed"] is None else F(s["fixed"]), "read": F(s["read"])}
-                     for s in o] for o in j["ops"]]}
+                     for s in o] for o in j["ops"]], "parents": j.get("parents")}
 
 
 def one_case(ctx, drv, case):
